@@ -1,0 +1,9 @@
+// Copyright JAMF Software, LLC
+
+//go:build !verif
+
+package storage
+
+import "time"
+
+func verifTicker(*time.Ticker) {}
